@@ -1012,13 +1012,15 @@ def count_cases(layout: str) -> list:
         return lambda new: new.overlays[0].render_order if len(new.overlays[0].faces) == 64 else -1
 
     def node_faces(bsp, n):
-        f = mkface(bsp, texinfo=tex(bsp))
+        bsp.orig_faces = [mkface(bsp)]
+        f = mkface(bsp, texinfo=tex(bsp), orig_face=bsp.orig_faces[0])
         bsp.faces = []
         bsp.nodes[0].faces = [f] * n
         return lambda new: len(new.nodes[0].faces)
 
     def leaf_faces(bsp, n):
-        f = mkface(bsp, texinfo=tex(bsp))
+        bsp.orig_faces = [mkface(bsp)]
+        f = mkface(bsp, texinfo=tex(bsp), orig_face=bsp.orig_faces[0])
         lf = B.VisLeaf(B.BrushContents.EMPTY, 0, 0, B.VisLeafFlags.NONE, Vec(), Vec(), [f] * n, [], -1)
         bsp.faces = [f]
         bsp.visleafs = [lf]
@@ -1068,11 +1070,11 @@ def count_cases(layout: str) -> list:
     if layout == 'v20':
         cases += [('cnt_prim_inds', prim_inds, [0, 65535, 65536], True),
                   ('cnt_leaf_faces', leaf_faces, [0, 65535, 65536], True),
-                  ('cnt_node_faces', node_faces, [65535, 65536], False),
-                  ('cnt_prop_leafs', prop_leafs, [65535, 65536], False),
-                  ('idx_face_texinfo', face_texinfo, [32767, 32768], False),
-                  ('idx_water_texinfo', water_texinfo, [65535, 65536], False),
-                  ('idx_face_first_prim', first_prim, [65535, 65536], False)]
+                  ('cnt_node_faces', node_faces, [65535, 65536], True),
+                  ('cnt_prop_leafs', prop_leafs, [65535, 65536], True),
+                  ('idx_face_texinfo', face_texinfo, [32767, 32768], True),
+                  ('idx_water_texinfo', water_texinfo, [65535, 65536], True),
+                  ('idx_face_first_prim', first_prim, [65535, 65536], True)]
     return cases
 
 
@@ -1083,7 +1085,7 @@ BOUNDS = [-(2 ** 31) - 1, -(2 ** 31), -65536, -32769, -32768, -129, -128, -1, 0,
 def fits_records(out: hlib.RecWriter, rng: random.Random) -> None:
     for layout in ('v20', 'chaos', 'vitamin', 'infra'):
         plan = [(field, build, None) for field, build in fits_cases(layout)]
-        plan += [(field, build, vals) for field, build, vals, quick in count_cases(layout) if quick or THOROUGH]
+        plan += [(field, build, vals) for field, build, vals, quick in count_cases(layout) ]
         for field, build, vals in plan:
             if vals is not None:
                 values = vals
